@@ -1,0 +1,49 @@
+//go:build verif
+
+package version
+
+import (
+	"os"
+
+	"github.com/lindb/lindb/pkg/bufioutil"
+)
+
+// VerifSeams are the package-level I/O functions of the version set (only compiled with -tags verif).
+type VerifSeams struct {
+	WriteFile       func(name string, data []byte, perm os.FileMode) error
+	ReadFile        func(name string) ([]byte, error)
+	Rename          func(oldpath, newpath string) error
+	NewBufferWriter func(fileName string) (bufioutil.BufioWriter, error)
+}
+
+// VerifGetSeams returns the current seam functions.
+func VerifGetSeams() VerifSeams {
+	return VerifSeams{WriteFile: writeFileFunc, ReadFile: readFileFunc, Rename: renameFunc, NewBufferWriter: newBufferWriterFunc}
+}
+
+// VerifSetSeams installs seam functions (nil fields keep the current function).
+func VerifSetSeams(s VerifSeams) {
+	if s.WriteFile != nil {
+		writeFileFunc = s.WriteFile
+	}
+	if s.ReadFile != nil {
+		readFileFunc = s.ReadFile
+	}
+	if s.Rename != nil {
+		renameFunc = s.Rename
+	}
+	if s.NewBufferWriter != nil {
+		newBufferWriterFunc = s.NewBufferWriter
+	}
+}
+
+// VerifActiveVersions returns the ids of the family's active versions and the id of the current one.
+func VerifActiveVersions(fv FamilyVersion) (active []int64, current int64) {
+	f := fv.(*familyVersion)
+	f.mutex.RLock()
+	defer f.mutex.RUnlock()
+	for id := range f.activeVersions {
+		active = append(active, id)
+	}
+	return active, f.current.ID()
+}
